@@ -14,25 +14,26 @@ import (
 
 // Exec is one verification run: one entry function under its contract.
 type Exec struct {
-	w         *World
-	entry     *ssa.Function
-	entryKey  string
-	contract  *Contract
-	counter   int
-	goals     []*Goal
-	trivial   map[string]int
-	leaves    []*node
-	ghostVars map[string]string
-	notes     map[string]bool // assumptions / abstractions used
-	errors    []string        // out-of-subset problems
-	maxPaths  int
-	nPaths    int
-	inlined   map[string]bool
-	usedSpecs map[string]bool
-	loops     map[*ssa.Function]*loopAnalysis
-	work      []*State
-	mode      string // "verify" or "sweep"
-	maxDepth  int
+	w           *World
+	entry       *ssa.Function
+	entryKey    string
+	contract    *Contract
+	counter     int
+	goals       []*Goal
+	trivial     map[string]int
+	trivialMeta map[string]*Goal
+	leaves      []*node
+	ghostVars   map[string]string
+	notes       map[string]bool // assumptions / abstractions used
+	errors      []string        // out-of-subset problems
+	maxPaths    int
+	nPaths      int
+	inlined     map[string]bool
+	usedSpecs   map[string]bool
+	loops       map[*ssa.Function]*loopAnalysis
+	work        []*State
+	mode        string // "verify" or "sweep"
+	maxDepth    int
 }
 
 type unsupported struct{ msg string }
